@@ -7,6 +7,7 @@
 package qevent
 
 import (
+	nats "github.com/nats-io/nats.go"
 	"os"
 	"encoding/json"
 	"fmt"
@@ -426,6 +427,68 @@ func groupHistory(seed int64) rec {
 	return w.record(ids, false, true, "group kept busy by test.other while 2 requests arrive and the query event expires")
 }
 
+// burstHistory: the resource's group is busy for a while and 16 query requests arrive 2 ms apart. The
+// subscription channel of a query event holds 10 messages and a NATS client drops what does not fit: the listener
+// takes the requests out as they come (they wait in the group's queue, not in the channel), none is dropped and
+// each is answered once the group gets to it.
+func burstHistory(seed int64) rec {
+	w := newWorld(seed, false, 800*time.Millisecond, false)
+	defer w.close()
+	if !w.startQuery() {
+		return nil
+	}
+	var sub *rconn.Sub
+	for _, sb := range w.conn.Subs() {
+		if sb.Subject == w.obs().subject {
+			sub = sb
+		}
+	}
+	if sub == nil {
+		return nil
+	}
+	release := make(chan struct{})
+	inside := make(chan struct{})
+	w.svc.With("test.other", func(res.Resource) { close(inside); <-release })
+	<-inside
+	var ids []string
+	dropped := 0
+	for i := 0; i < 16; i++ {
+		id := fmt.Sprintf("u%d", i+1)
+		ids = append(ids, id)
+		w.setBeh(id, "")
+		m := &nats.Msg{Subject: w.obs().subject, Reply: "inbox." + id, Data: []byte(`{"query":"id=` + id + `"}`), Sub: sub.NS}
+		sent := false
+		for t := 0; t < 50 && !sent; t++ { // (a real client does not wait at all; 50 ms is leniency for a busy machine)
+			select {
+			case sub.Ch <- m:
+				sent = true
+			default:
+				time.Sleep(time.Millisecond)
+			}
+		}
+		if !sent {
+			dropped++
+		}
+		time.Sleep(2 * time.Millisecond)
+	}
+	close(release)
+	for t := 0; t < 2000; t++ {
+		n := 0
+		for _, id := range ids {
+			n += len(w.conn.PubsOn("inbox." + id))
+		}
+		if n >= len(ids)-dropped {
+			break
+		}
+		time.Sleep(time.Millisecond)
+	}
+	time.Sleep(3 * time.Millisecond)
+	r := w.record(ids, false, false, fmt.Sprintf("burst history seed %d: 16 query requests 2 ms apart while the group is busy; %d did not fit into the subscription channel", seed, dropped))
+	r["judge"] = "burst"
+	r["dropped"] = dropped
+	return r
+}
+
 // shutdownHistory: Shutdown begins while a callback of the resource's group is running and the
 // query event expires meanwhile; whatever the library does with the final nil call, it must not
 // run beside the callback that is still inside.
@@ -813,6 +876,11 @@ func Run(c *core.Ctx) {
 			recs = append(recs, rr)
 		}
 	}
+	for i := 0; i < c.Pick(3, 12); i++ {
+		if rr := burstHistory(c.Seed*7 + int64(i)); rr != nil {
+			recs = append(recs, rr)
+		}
+	}
 	var bad []int
 	core.CheckRecords(c, "TraceQueryObs", "TraceQueryObs.cfg", recs, nil, func(i int, r interface{}, inv string) { bad = append(bad, i) })
 	if len(bad) > 0 {
@@ -820,8 +888,8 @@ func Run(c *core.Ctx) {
 		var recs2 []interface{}
 		var which []string
 		for _, i := range bad {
-			for _, cl := range append(clauses, "foreign", "active", "fresh") {
-				if (cl == "active" || cl == "fresh") && fmt.Sprint(recs[i].(rec)["judge"]) != cl {
+			for _, cl := range append(clauses, "foreign", "active", "fresh", "burst") {
+				if (cl == "active" || cl == "fresh" || cl == "burst") && fmt.Sprint(recs[i].(rec)["judge"]) != cl {
 					continue
 				}
 				// a record judged for one clause only (released / foreign) is re-judged for that clause
